@@ -1263,6 +1263,8 @@ def oracle_primary(line, out):
     a, qlen, c, d = kv["QRY"].split(":")
     Q = [int(t) for t in d.split(",")]
     rlen, qlen = int(rlen), int(qlen)
+    if R != sorted(R) or Q != sorted(Q):
+        return None          # label lists are ascending in every OpticalMap the readers build: outside the domain
     if out.startswith("ERR"):
         return f"exception {out}" if mpd >= res else None
     rs = _ideal_seq(R, res, r)
